@@ -2,7 +2,7 @@ use crate::Backtrace;
 use crate::DatabaseKeyIndex;
 use crate::function::memo::{Memo, MemoHeader};
 use crate::function::{Configuration, IngredientImpl};
-use crate::zalsa_local::QueryRevisions;
+use crate::zalsa_local::{QueryOriginRef, QueryRevisions};
 use std::fmt;
 
 impl<C> IngredientImpl<C>
@@ -51,7 +51,12 @@ impl MemoHeader {
             self.revisions.changed_at,
         );
 
-        if self.revisions.changed_at > revisions.changed_at {
+        // A value assigned through `specify` carries the stamp of the query that assigned it,
+        // not of the inputs read by this query's own body, so it may legitimately be newer than
+        // the stamp of a later execution of the body that computes an equal value.
+        if self.revisions.changed_at > revisions.changed_at
+            && !matches!(self.origin(), QueryOriginRef::Assigned(_))
+        {
             report_backdate_violation(index, self.revisions.changed_at, revisions.changed_at);
         }
 
